@@ -124,9 +124,18 @@ func (key ECDSAPublicKey) CryptoPublicKey() crypto.PublicKey {
 // RawX962ECC returns the RawX962ECC formatted public key.
 func (key ECDSAPublicKey) RawX962ECC() RawX962ECC {
 	var x, y [32]byte
-	copy(x[:], key.key.X.Bytes())
-	copy(y[:], key.key.Y.Bytes())
+	copyRightAligned(x[:], key.key.X.Bytes())
+	copyRightAligned(y[:], key.key.Y.Bytes())
 	return NewRawX962ECC(x, y)
+}
+
+// copyRightAligned copies the big-endian number src to the fixed-width buffer dst, padding with leading zeros.
+func copyRightAligned(dst, src []byte) {
+	if len(src) >= len(dst) {
+		copy(dst, src)
+		return
+	}
+	copy(dst[len(dst)-len(src):], src)
 }
 
 // Type returns EC2.
